@@ -513,6 +513,8 @@ def instances(rng, batch, n, mode="full", psd=False):
     add("Masked(ConstantMul(Dense))", lambda c, nb: Masked(c, nb, CMul(c, nb, Dense(c, nb, n + 1, n + 1), pos=False)))
     add("Masked(Sum(Toeplitz,Diag))", lambda c, nb: Masked(c, nb, Node("sum", [Toep(c, nb, n + 1), Diag(c, nb, n + 1)])), exact=False)
     add("Interpolated(Dense)", lambda c, nb: Interp(c, nb, Dense(c, nb, n + 1, n + 1), n, n + 2))
+    add("Interpolated<eqrows>(Dense)", lambda c, nb: Interp(c, nb, Dense(c, nb, n + 1, n + 1), n, n))
+    add("Sum(Interpolated<eqrows>(Dense),Dense)", lambda c, nb: Node("sum", [Interp(c, nb, Dense(c, nb, n + 1, n + 1), n, n), Dense(c, nb, n, n)]))
     add("Interpolated<rectbase>(Dense)", lambda c, nb: Interp(c, nb, Dense(c, nb, n + 1, n), n, n + 1))
     add("Interpolated<q3>(Diag)", lambda c, nb: Interp(c, nb, Diag(c, nb, n + 1, pos=False), n, 2, q=3))
     add("Interpolated(Toeplitz)", lambda c, nb: Interp(c, nb, Toep(c, nb, n + 1), n, n), exact=False)
